@@ -100,6 +100,15 @@ def rand_trunc(rnd, m, p):
 
 def expand(job):
     rnd = random.Random(job["seed"])
+    if job.get("kind") == "gen":       # the (mode, truncated point, full point) universe of MC_C20.tla, emitted by TLC
+        zs = [(0, 0), (1, 0), (-3, -30), (5, 30)]
+        for i, (mm, hh, mi, ss, dom, doy, dow, woy, y, a, b, sod) in enumerate(job["tuples"]):
+            z = zs[i % 4]
+            t = {"hh": hh, "mi": mi, "ss": ss, "dom": dom, "doy": doy, "dow": dow, "woy": woy, "zu": True, "zh": 0, "zm": 0}
+            if i % 3 == 0 and (hh >= 0 or mi >= 0 or ss >= 0):
+                t.update(zu=False, zh=z[0], zm=z[1])       # read in the same offset as p: the model's universe, spelled with a zone
+            yield {"mode": mm, "t": t, "p": tp_rec("cal", y, a, b, sod=sod, zh=z[0], zm=z[1]), "order": ["t+p", "p+t"][i % 2]}
+        return
     for _ in range(job["n"]):
         sp = gen.spelling(rnd)
         m = MEANING[sp]
@@ -109,7 +118,25 @@ def expand(job):
         yield {"mode": sp, "t": t, "p": p, "order": rnd.choice(["t+p", "p+t"])}
 
 
+def gen_tuples():
+    import shutil
+    import tempfile
+    from harness import tlc
+    scratch = tempfile.mkdtemp(prefix="isodt_gen_")
+    try:
+        r = tlc.model_check("MC_C20.tla", "Gen_C20.cfg", scratch, workers=4)
+        tuples = tlc.gen_lines(r["out"])
+    finally:
+        shutil.rmtree(scratch, ignore_errors=True)
+    if len(tuples) < 5000:
+        raise tlc.MachineryError("TLC generated only %d truncated additions" % len(tuples))
+    return tuples
+
+
 def jobs(tier, seed):
+    tuples = gen_tuples()
+    step = len(tuples) // 4 + 1
+    out = [{"kind": "gen", "tuples": tuples[i * step:(i + 1) * step], "seed": seed} for i in range(4)]
     if tier == "quick":
-        return [{"n": 350, "seed": seed * 100 + j} for j in range(16)]
-    return [{"n": 5000, "seed": seed * 1000 + j} for j in range(32)]
+        return out + [{"n": 350, "seed": seed * 100 + j} for j in range(12)]
+    return out + [{"n": 5000, "seed": seed * 1000 + j} for j in range(28)]
